@@ -21,7 +21,7 @@ ASSUMPTIONS = c03_sv.ASSUMPTIONS + [
 
 def plan(tier, seed):
   q = tier == "quick"
-  return [{"hashseed": (seed * 61 + i) % 1061, "part": i, "nparts": 16, "designs": 16 if q else 300, "probes": 3 if q else 20} for i in range(16)]
+  return [{"hashseed": (seed * 61 + i) % 1061, "part": i, "nparts": 16, "designs": 26 if q else 400, "probes": 3 if q else 20} for i in range(16)]
 
 
 def thresholds(tier):
@@ -35,12 +35,13 @@ def thresholds(tier):
 
 def knobs_clean(rng):
   return {"depth": rng.choice([0, 1, 1, 2]), "max_children": rng.choice([1, 2]), "p_struct": rng.choice([0.3, 0.6]), "p_list": 0.3,
-          "p_ff": 0.25, "max_sigs": rng.choice([3, 4]), "expr_depth": rng.choice([2, 3]), "struct_split": False, "struct_wires": False}
+          "p_ff": 0.25, "max_sigs": rng.choice([3, 4]), "expr_depth": rng.choice([2, 3]), "struct_split": False, "struct_wires": False, "for_desc": False,
+          "p_nested_field": rng.choice([0, 0, 0, 0.3]), "p_list_field": rng.choice([0, 0, 0.4])}
 
 
 def knobs_probe(rng):
   return {"depth": rng.choice([0, 1]), "max_children": 1, "p_struct": 0.8, "p_list": 0.1, "p_ff": 0.3, "max_sigs": 3, "expr_depth": 1,
-          "struct_split": True, "struct_wires": True, "p_split": 0.8}
+          "struct_split": True, "struct_wires": True, "p_split": 0.8, "for_desc": False}
 
 
 # ---- known-finding predicates ---------------------------------------------------------------------------------------
